@@ -164,6 +164,10 @@ func (m *MonC08) OnLog(w *World, e *LogEntry) {
 		if r := c.Ref.LastResp; r != nil && r.Action == "unsubscribe" && !r.Dup && r.Resp == 1 {
 			m.judge(w, c, r)
 		}
+		if r := c.Ref.LastResp; r != nil && r.Resp == 1 && r.Error != nil && r.Error.Code == "system.subscriptionLimitExceeded" {
+			m.class("failed_at_subscription_limit")
+			m.nontriv = true
+		}
 		if n := len(c.Ref.Events); n > 0 && c.Ref.LastResp == nil && c.Ref.Events[n-1].T == e.T && c.Ref.Events[n-1].Event == "unsubscribe" {
 			rid := c.Ref.Events[n-1].RID
 			for _, id := range c.Ref.ReqOrder {
